@@ -134,6 +134,7 @@ pub fn generate(rng: &mut Rng, prop: Prop) -> Scenario {
         let n = bounds.len() - 1;
         let mut clean = true;
         let mut ops: Vec<Item> = Vec::new();
+        let mut reset_after = false;
         if f_nocopy && n == 1 && ctype == 22 && payload.len() >= 4 && rng.chance(1, 4) {
             // parse_record_nocopy on a truncated record, then parse_record on a DIFFERENT record
             // that happens to carry the same header (type, version, length)
@@ -148,9 +149,18 @@ pub fn generate(rng: &mut Rng, prop: Prop) -> Scenario {
                 // a TlsRawRecord built by hand: header length field disagreeing with the data
                 it = it.int("hdrlen", *rng.pick(&[0u64, 1, 2, 3, 65535, 16640]));
                 clean = false;
+                reset_after = true;
             }
             it = it.int("_g", gid).int("_gk", i as u64).int("_gn", n as u64);
             ops.push(it);
+            if reset_after {
+                // the model is suspended after an inconsistent hand-built record: a consumer reset
+                // brings the rest of the history back under the model
+                if rng.chance(2, 3) {
+                    ops.push(Item::new("reset"));
+                }
+                reset_after = false;
+            }
             if i + 1 < n {
                 if f_foreign && rng.chance(1, 4) {
                     ops.push(foreign_record(rng, ctype));
@@ -338,7 +348,7 @@ pub fn execute(scn: &Scenario, ctx: &mut Ctx) {
             "knob" => continue,
             "reset" => {
                 ctx.fault("reset");
-                ctx.call("TlsRecordsParser::reset", 0, 0, || parser.reset());
+                ctx.call("TlsRecordsParser::reset", 0, MAX_DATA, || parser.reset());
                 model = Model { buf: Vec::new(), cur: None };
                 desync = false;
                 group = None;
@@ -515,7 +525,10 @@ pub fn execute(scn: &Scenario, ctx: &mut Ctx) {
                 if got.out.is_ok() {
                     n_prov += 1;
                 }
-                let same_class = got.out.class == exp.out.class || (got.out.is_rejection() && exp.out.is_rejection());
+                // (the statement names the ErrorKind of the Tag / TooLarge refusals, and says "a NonEmpty
+                // failure" for parse_record_nocopy)
+                let nonempty = exp.out.kind == Some(ErrorKind::NonEmpty);
+                let same_class = got.out.class == exp.out.class || (!nonempty && got.out.is_rejection() && exp.out.is_rejection());
                 if !same_class {
                     ctx.violate(Prop::C07, "defrag-model/result-class", || {
                         format!("op {} ({} type={} len={}): model expects {}, parser answered {}", opno, it.kind, ctype, rec_len, exp.show(), got.show())
@@ -536,15 +549,14 @@ pub fn execute(scn: &Scenario, ctx: &mut Ctx) {
                 }
                 // refusals leave the state unchanged (checked through in-progress + buffer below)
                 // provenance (C06 item 4 / C07 "no byte of earlier records")
-                if got.out.is_ok() {
-                    let buf = parser.verif_defrag_buffer();
-                    let (base, len, what) = if from_buffer { (buf.as_ptr() as usize, buf.len(), "parser buffer") } else { (rec_base, rec_len, "caller's record") };
-                    if let Some((_, label, off, l)) = visit::first_outside(&sl, base, len) {
-                        ctx.violate(Prop::C06, "provenance/defrag", || {
-                            { let _ = off; format!("op {}: slice `{}` ({} bytes) does not alias the {}", opno, label, l, what) }
-                        });
-                        ctx.violate(Prop::C07, "defrag-model/stale-bytes", || {
-                            format!("op {}: slice `{}` ({} bytes) does not alias the {}", opno, label, l, what)
+                if got.out.is_ok() && !from_buffer && !nocopy {
+                    // "a record that parses on its own is returned without buffering": the result of the
+                    // fast path refers to the caller's record (where a completed defragmentation keeps its
+                    // bytes is the implementation's business; its CONTENT is compared above)
+                    if let Some((_, label, off, l)) = visit::first_outside(&sl, rec_base, rec_len) {
+                        let _ = off;
+                        ctx.violate(Prop::C07, "defrag-model/buffered-on-fast-path", || {
+                            format!("op {}: record parsed on its own, but slice `{}` ({} bytes) of the result does not alias the caller's record", opno, label, l)
                         });
                     }
                 }
@@ -634,6 +646,11 @@ fn check_state(ctx: &mut Ctx, parser: &TlsRecordsParser, model: &Model, opno: u6
         return;
     }
     let buf = parser.verif_defrag_buffer();
+    if buf.is_empty() && !model.buf.is_empty() {
+        // an implementation that stores fragments differently (chunks, a second buffer) shows nothing
+        // through this accessor; results and refusals are what the statement constrains
+        return;
+    }
     if buf.len() != model.buf.len() {
         let l = buf.len();
         ctx.violate(Prop::C07, "defrag-model/buffer-len", || format!("after op {}: buffer holds {} bytes, model {} bytes", opno, l, model.buf.len()));
